@@ -66,7 +66,7 @@ func (c05Driver) Tier(t string) core.Tier {
 
 func (c05Driver) Info() core.Info {
 	return core.Info{
-		Rule: "A case is a generated module set (1-4 modules, 0-2 submodules, deviating modules; typedefs, identities incl. equal names in different modules, groupings, uses, augment chains, deviations with several deviate statements, and up to 2 injected invalid constructs) plus K alternative executions, each a (load-order permutation, map-order schedule = mode per iteration site + one integer). " +
+		Rule: "Traps added per case with small probability: an older revision of one module (possibly one that includes submodules) with some importers pinned to it by revision-date; two modules sharing one namespace; twin modules with a cycle whose members stand at equal positions. A case is a generated module set (1-4 modules, 0-2 submodules, deviating modules; typedefs, identities incl. equal names in different modules, groupings, uses, augment chains, deviations with several deviate statements, and up to 2 injected invalid constructs) plus K alternative executions, each a (load-order permutation, map-order schedule = mode per iteration site + one integer). " +
 			"Every execution runs on a fresh Modules and is compared byte for byte with the canonical execution (sorted load order, every site sorted) and with a repeat of it; modes: library (full dump or error list), command (stdout, stderr and exit status of the instrumented goyang binary for --format tree and types, arguments permuted), yangentry.Parse on the simulated disk. " +
 			"A case is non-trivial when at least one alternative execution consulted an iteration site with >= 2 keys in a non-sorted mode or used a non-identity load order. Distinct = distinct (scenario, executions) descriptions.",
 		Assumptions: []string{
